@@ -58,3 +58,4 @@ fn k3_deadline_field_always_renderable() {
     assert!(since_epoch.is_ok(), "C16: not before the epoch");
     assert!(since_epoch.unwrap().as_secs() < 253_402_300_800, "C16: within what humantime can render (year <= 9999)");
 }
+
